@@ -161,7 +161,7 @@ def tip_heights(case):
     if not d:
         return [0.0] * len(names)
     vals = [float(d[nm]) for nm in names]
-    if max(vals) == 0.0:
+    if max(vals) == 0.0 and min(vals) == 0.0:
         return [0.0] * len(names)
     if min(vals) == 0.0:  # dates are ages
         return vals
